@@ -1,7 +1,7 @@
 #!/usr/bin/python3
-"""bin/seed_eval.py <Cxx> [--keep-as NAME]
+"""bin/seed_eval.py <Cxx> [--round N] [--keep-as NAME]
 
-Confirms an independently written property-breaking change (from /tmp/seedwork/wt-<id>/SEED)
+Confirms an independently written property-breaking change (from /tmp/seedwork/wt<N>-<id>/SEED)
 and runs every check against it:
  1. in the scratch worktree: the pinned suite passes with the change; the demo fails with it
     and passes without it;
@@ -33,11 +33,14 @@ def test_summary(out):
 
 def main():
     pid = sys.argv[1]
-    name = sys.argv[3] if len(sys.argv) > 3 and sys.argv[2] == "--keep-as" else pid.lower() + "-agent"
-    wt = "/tmp/seedwork/wt-%s" % pid
+    rnd = ""
+    if "--round" in sys.argv:
+        rnd = sys.argv[sys.argv.index("--round") + 1]
+    name = sys.argv[sys.argv.index("--keep-as") + 1] if "--keep-as" in sys.argv else pid.lower() + ("-r" + rnd if rnd else "-agent")
+    wt = "/tmp/seedwork/wt%s-%s" % (rnd, pid)
     seed = os.path.join(wt, "SEED")
     patch = os.path.join(seed, "patch.diff")
-    tdir = "/tmp/seedwork/target-eval-%s" % pid   # never shared: cargo hashes workspace members path-independently
+    tdir = "/tmp/seedwork/target-eval%s-%s" % (rnd, pid)   # never shared: cargo hashes workspace members path-independently
     tgt = {"CARGO_TARGET_DIR": tdir, "CARGO_NET_OFFLINE": "true"}
     meta = {"property": pid, "source": "independent sub-agent given only the property text and a scratch worktree", "ran": []}
     # demo location: untracked test file in the worktree
